@@ -8,6 +8,7 @@
 #include <termios.h>
 #include <sys/prctl.h>
 #include <pthread.h>
+#include <grp.h>
 #include "snoopy.h"
 
 int snoopy_filtering_check_chain(char const * const chain);
@@ -100,6 +101,8 @@ static void handle(int nf, char **f, FILE *out) {
 }
 
 int main(void) {
+    /* a group id that is no uid of any case (and differs from the real uid 0 too): a filter that looks at a gid shows */
+    if (setgroups(0, NULL) != 0 || setresgid(4242, 4242, 4242) != 0) { /* not root: set_state reports it */ }
     devnull = open("/dev/null", O_RDONLY);
     if (openpty(&pty_master, &pty_slave, NULL, NULL, NULL) != 0) { pty_master = pty_slave = -1; }
     return run_cases(stdin, handle, 20);
